@@ -194,7 +194,7 @@ def run_lockstep(ctx, exe, cases, judge, imports):
             continue
         terms.append(term_of(c, p, e))
         kept.append((c, p, o))
-    verdicts = ls_common.judge_parallel(ctx, imports, judge, terms, shard_size=100)
+    verdicts = ls_common.judge_parallel(ctx, imports, judge, terms, shard_size=36)
     if verdicts is None:
         return None
     return [(c, p, o, v) for (c, p, o), v in zip(kept, verdicts)]
